@@ -580,6 +580,45 @@ def gen_long_strings(ctx):
         yield ''.join(parts).encode('utf-8')
 
 # ------------------------------------------------------------------ run
+# ---- strings in context: the scratch buffer is shared with everything else one Deserializer does
+NUMS_CTX = [b'1', b'-0.5', b'1e5', b'0.1234567890123456789012345', b'18446744073709551616000', b'123456789012345678901234567890e-10',
+            b'-1.00000000000000000000000000001E+2', b'0.000000000000000000001234567890123456789']
+STRS_CTX = [b'""', b'"abc"', b'"d\\ne"', b'"\\u00e9\\ud83d\\ude00"', '"é☃😀"'.encode(), b'"' + b'x' * 40 + b'"', b'"a\\"b"', b'"\\\\"', b'"tail"']
+
+def docs_in_context(rng):
+    for n in NUMS_CTX:
+        for s1 in STRS_CTX:
+            s2 = rng.choice(STRS_CTX)
+            yield b'[' + n + b', ' + s1 + b']'
+            yield b'[' + n + b',' + s1 + b', ' + n + b', ' + s2 + b']'
+            yield b'{"a": ' + n + b', ' + s1 + b': ' + s2 + b'}'
+            yield b'[[' + n + b'], {' + s2 + b':' + s1 + b'}]'
+            yield b'{' + s1 + b':[' + n + b'],' + s2 + b':' + n + b',"z":' + s1 + b'}'
+
+def judge_in_context(ctx, cfg):
+    """string literals AFTER other work of the same Deserializer (long numbers that use the shared scratch buffer, nested containers, earlier keys): every string and
+    key of the document must still be exactly its own text (model: the denotation of the document); and, step by step on ONE Deserializer with failures swallowed
+    (a skip failing inside nested brackets, a typed request refused), what a later string read yields must not depend on what was requested before"""
+    from checks import parser
+    docs = list(docs_in_context(ctx.rng))
+    L = ctx.letters(cfg)
+    v = []
+    for src in ('b', 'r1'):
+        lines = ['pv %s %s %s' % (L, src, hx(d)) for d in docs]
+        io, mo = ctx.both(cfg, lines)
+        for d, a, m in zip(docs, io, mo):
+            if a != m and (a.startswith('ok') or m.startswith('ok')):
+                v.append({'what': 'string-in-context', 'cfg': cfg, 'src': src, 'input': hx(d), 'expected': 'denotation (proved model): ' + m[:300], 'actual': a[:300]})
+            elif a.startswith('ok'):
+                ctx.distinct_nontrivial += 1
+    ctx.count('strings-in-context-docs', 2 * len(docs))
+    toks = [b'[[1 "abc"]]', b'{"a":[1 "k"]}', b'[[[true false', b'{"k" "v"}', b'"x"', b'123456789012345678901234567890', b'0.1234567890123456789012345', b'[1,2]', b'null']
+    lasts = [b'"abc"', b'"d\\ne"', b'["p","q"]', b'{"key":"val"}', '"é"'.encode()]
+    # container tokens: only requests that walk the whole structure the same way (Value, IgnoredAny) are interchangeable; scalar tokens: every type
+    v += parser.judge_state_isolation(ctx, cfg, 300 if ctx.tier == 'quick' else 3000, toks=toks, lasts=lasts, types='vi')
+    v += parser.judge_state_isolation(ctx, cfg, 300 if ctx.tier == 'quick' else 3000, toks=[t for t in toks if t[:1] not in b'[{'] + [b'"y\\u0041"', b'true'], lasts=lasts)
+    return v
+
 def run_c05(ctx):
     ctx.rule = ('serializer: every Unicode scalar value (alone and in blocks of 61 consecutive scalars; quick: alone for U+0000-U+2FFF, all plane/length boundaries, every 53rd; '
                 'thorough: every one alone) and random strings up to 64 KiB -> bytes and write buffers compared with the extracted Coq model and an independent reference escaper, '
@@ -589,7 +628,9 @@ def run_c05(ctx):
                 'random 4-byte groups after \\u (quick 2^17, thorough 2^20) and every byte at every hex position; every special byte (", \\, 00, 1f, 20, 7f, 80, ff) at every offset 0..24 in '
                 'strings of every length 0..32, pairs of specials, shifted phases; every Table 3-7 boundary of invalid UTF-8; random long mixed literals up to 64 KiB. '
                 'Each outcome compared with the model (proved against RFC 8259 section 7 in Properties/C05.v) and with an independent Python decoder (text and WTF-8 bytes mode); '
-                'str/slice/reader agree; borrowed iff no escape. non-trivial = (literal, mode) pairs accepted on slice input + serialised strings containing escapable or non-ASCII characters')
+                'str/slice/reader agree; borrowed iff no escape. Strings in context (default and float_roundtrip builds): documents whose strings and keys follow long number literals / nested containers vs the denotation given by the model, and step-by-step reads on one Deserializer with swallowed failures (state isolation). non-trivial = (literal, mode) pairs accepted on slice input + serialised strings containing escapable or non-ASCII characters')
+    for cfg in list(ctx.cfgs) + [c for c in getattr(ctx, 'side_cfgs', []) if c not in ctx.cfgs]:
+        ctx.violations += judge_in_context(ctx, cfg)
     for cfg in ctx.cfgs:
         # ---- serializer
         for batch in chunks(gen_scalar_strings(ctx), 200000):
@@ -620,4 +661,4 @@ STR5_TB = ['the writer is modelled as the sequence of buffers passed to io::Writ
            'core::str::from_utf8 is modelled by Base/Utf8.v utf8_valid (Unicode Table 3-7); tied by the invalid-UTF-8 cases against Python\'s decoder',
            'borrowed results: the model returns a flag; the harness checks the returned pointer lies inside the input buffer']
 
-register('C05', cfgs={'quick': ['def'], 'thorough': ['def']}, run=run_c05, judge=judge_c05, extended=run_c05, trusted_base=STR5_TB)
+register('C05', cfgs={'quick': ['def'], 'thorough': ['def']}, side_cfgs=['fr'], run=run_c05, judge=judge_c05, extended=run_c05, trusted_base=STR5_TB)
